@@ -16,12 +16,18 @@ partial def tree? : Sexp → Option Tree
       | Sexp.list [Sexp.atom key, t] => (tree? t).map fun t' => (key, t')
       | _ => none
     pure (.node b dev kids)
+  | .list (.atom "lz" :: sd :: kids) => do
+    let kids ← kids.mapM fun k => match k with
+      | Sexp.list [Sexp.atom key, t] => (tree? t).map fun t' => (key, t')
+      | _ => none
+    pure (.lazy (← asNat? sd) kids)
   | _ => none
 
 partial def treeSx : Tree → Sexp
   | .leaf d s b => .list [.atom "l", .atom d, ofNats s, ofNats b]
   | .nontensor d b => .list [.atom "nt", .atom d, ofNats b]
   | .node b dev kids => .list (.atom "n" :: ofNats b :: .atom dev :: kids.map fun (k, t) => .list [.atom k, treeSx t])
+  | .lazy sd kids => .list (.atom "lz" :: ofNat sd :: kids.map fun (k, t) => .list [.atom k, treeSx t])
 
 def entrySx : String × MetaEntry → Sexp
   | (k, .leaf d s) => .list [.atom k, .atom "leaf", .atom d, ofNats s]
